@@ -179,16 +179,21 @@ class World:
                 seen.add(mc.ordinal)
             asg = [a for a in step.get("asg", []) if a["pool"] == k]
             if asg:
-                totc = sum(a["cpu"] for a in asg)
+                totc = 0
+                for a in asg:
+                    totc += a["cpu"]
                 if totc > self.free_cpu[k] and not near(totc, self.free_cpu[k]):
                     return ("oversell-cpu", k, ("C03",))
                 if totc != self.free_cpu[k] and near(totc, self.free_cpu[k], 1e-12) and not float(totc).is_integer():
                     self.soft_reject = ("oversell-cpu", k, ("C03",))
                 if not self.overcommit:
-                    tot = sum(a["ram"] for a in asg)
+                    tot = 0.0
+                    for a in asg:
+                        tot += a["ram"]             # plain left-to-right accumulation (the built-in sum() compensates)
+                    whole = all(float(a["ram"]).is_integer() for a in asg) and float(self.free_ram[k]).is_integer()
                     if tot > self.free_ram[k] and not near(tot, self.free_ram[k], 1e-12):
                         return ("oversell-ram", k, ("C03",))
-                    if (near(tot, self.free_ram[k], 1e-12) and not (tot == self.free_ram[k] and float(tot).is_integer())) \
+                    if (near(tot, self.free_ram[k], 1e-12) and not (tot == self.free_ram[k] and whole)) \
                             or (tot > self.free_ram[k]):
                         # the request is within float rounding of the free amount (a ledger kept by += / -= of
                         # fractional sizes need not equal one that is recomputed or snapped to capacity when the
